@@ -615,3 +615,23 @@ Example C01_loop_rotation_any_level_example :
                  mkNode 21 20 [21; 7] [21] (KOrig 1) ]
                1 (-1) 6 [7; 20] [6] (fun _ _ => true) 40 41 8 9 [30; 31; 32] = true.
 Proof. vm_compute. reflexivity. Qed.
+
+(* the early return of loop_restructure_helper (the single latch is the single exiting block: only a back
+   edge is declared) keeps every flat walk, at any level (Model/BeOnly.v): hierarchies of the same size whose
+   blocks agree on successors and class have the same flat walks *)
+From V Require Import Model.Edits2 Model.BeOnly.
+Theorem C01_early_return_any_level_preserves_paths :
+  forall h lvl nl g1 g2 bb hd b b1 strict,
+    find h lvl = Some nl -> is_region nl = true ->
+    collect h (children_h nl) = Some g1 ->
+    dpop g1 bb = Some (b, g2) -> declare_backedge b hd = Some b1 ->
+    NoDup (ekeys (dset g2 bb b1)) -> efind g1 lvl = None ->
+    (forall x n t, find h x = Some n -> is_region n = false -> In t (n_jt n) -> enter_flat h (S (length h)) t <> None) ->
+    forall n e ds tr st,
+      (exists b0 p, find h n = Some b0 /\ n_kind b0 = KOrig p) ->
+      WTrace h (resolve_flat h) strict n e ds tr st ->
+      WTrace (write_back h lvl (dset g2 bb b1)) (resolve_flat (write_back h lvl (dset g2 bb b1))) strict n e ds tr st.
+Proof.
+  intros h lvl nl g1 g2 bb hd b b1 strict. exact (early_return_keeps_walks h lvl nl g1 g2 bb hd b b1 strict).
+Qed.
+Print Assumptions C01_early_return_any_level_preserves_paths.
